@@ -22,6 +22,10 @@ LAYOUTS = {
     # a later session into x / into y dies before it is merged
     "stale-x": ["A", None, "|", "B", "A", "|", None, "B", "!x", "A", "B"],
     "stale-y": ["A", None, "|", "B", "A", "|", None, "B", "!y", "B", "A"],
+    # a bushy list tree: a shallow directory listed after a deeper one,
+    # several lists per depth (listing order = pre-order walk)
+    "bushy": ["A", None, ">c", "B", "A", ">a/b", None, "B", ">e", "B"],
+    "bushy2": [">p", "A", "B", ">q/r/s", "A", None, ">q/t", "B", ">u", None],
 }
 ACCEPTS = {
     "sync": {"shards", "limit", "filter"},
@@ -63,6 +67,8 @@ def build(root, fmt: str, layout: list):
             sessions.append(["xyzw"[min(len(sessions) - 1, 3)], False, []])
         elif isinstance(g, str) and g.startswith("!"):
             sessions.append([g[1:], True, []])
+        elif isinstance(g, str) and g.startswith(">"):
+            sessions.append([g[1:], False, []])  # session into that directory
         else:
             sessions[-1][2].append(g)
     many = len(sessions) >= 3
@@ -260,7 +266,8 @@ def run(ctx):
     tasks = [("fb", "g6"), ("fb", "g5"), ("npz", "g6"), ("tfrec", "g5"),
              ("fb", "one"), ("fb", "nest"), ("npz", "nest"), ("fb", "types"),
              ("fb", "nest2"), ("tfrec", "nest2"), ("fb", "stale-x"),
-             ("fb", "stale-y"), ("npz", "stale-y")]
+             ("fb", "stale-y"), ("npz", "stale-y"), ("fb", "bushy"),
+             ("npz", "bushy"), ("fb", "bushy2")]
     if ctx.tier == "thorough":
         tasks += [("npz", "g5"), ("tfrec", "g6"), ("npz", "one"),
                   ("tfrec", "one"), ("npz", "stale-x"), ("tfrec", "stale-x"),
